@@ -698,6 +698,10 @@ impl Message {
             return Err(DecodeMessageError::NotBencodeDictionary);
         }
 
+        if exceeds_nesting_limit(bytes) {
+            return Err(DecodeMessageError::TooDeeplyNested);
+        }
+
         Message::from_serde_message(internal::DHTMessage::from_bytes(bytes)?)
     }
 
@@ -895,6 +899,52 @@ fn signed_peer_to_bytes(peer: &([u8; 32], u64, [u8; 64])) -> [u8; 104] {
     bytes
 }
 
+/// KRPC messages nest four or five levels deep at most; the decoder recurses once per level,
+/// so anything deeper than this is rejected before it is decoded.
+const MAX_NESTING_DEPTH: usize = 32;
+
+/// Walks the bencode structure without recursion. Malformed input is left to the decoder.
+fn exceeds_nesting_limit(bytes: &[u8]) -> bool {
+    let mut depth: usize = 0;
+    let mut i = 0;
+
+    while i < bytes.len() {
+        match bytes[i] {
+            b'd' | b'l' => {
+                depth += 1;
+                if depth > MAX_NESTING_DEPTH {
+                    return true;
+                }
+                i += 1;
+            }
+            b'e' => {
+                depth = depth.saturating_sub(1);
+                i += 1;
+            }
+            b'i' => {
+                while i < bytes.len() && bytes[i] != b'e' {
+                    i += 1;
+                }
+                i += 1;
+            }
+            b'0'..=b'9' => {
+                let mut len: usize = 0;
+                while i < bytes.len() && bytes[i].is_ascii_digit() {
+                    len = len
+                        .saturating_mul(10)
+                        .saturating_add((bytes[i] - b'0') as usize);
+                    i += 1;
+                }
+                // the ':' and the string itself
+                i = i.saturating_add(1).saturating_add(len);
+            }
+            _ => return false,
+        }
+    }
+
+    false
+}
+
 #[derive(thiserror::Error, Debug)]
 /// Mainline crate error enum.
 pub enum DecodeMessageError {
@@ -903,6 +953,9 @@ pub enum DecodeMessageError {
 
     #[error("Expected message to start with 'd'")]
     NotBencodeDictionary,
+
+    #[error("Message is nested too deeply")]
+    TooDeeplyNested,
 
     #[error("Wrong number of bytes for nodes")]
     InvalidNodes4,
